@@ -64,6 +64,9 @@ impl UrlPath {
 
             if _char == ']' && previous_char.is_some() && previous_char.unwrap() == ']' {
                 is_opened_token = false;
+                if _buffer.len() < 2 {
+                    return Err("at least one extra ] char".to_string());
+                }
                 let without_square_brackets = _buffer.len() - 2;
                 let key : String = _buffer[0..without_square_brackets].into_iter().collect();
                 let part = Part {
@@ -149,7 +152,11 @@ impl UrlPath {
                 } else {
                     let next_part = parts.get(index + 1).unwrap();
                     println!("3, {}", part);
-                    let delimiter = next_part.static_pattern.clone().unwrap().chars().next().unwrap();
+                    let boxed_delimiter = next_part.static_pattern.clone().unwrap_or("".to_string()).chars().next();
+                    if boxed_delimiter.is_none() {
+                        return Err("token is not followed by a static part of the pattern".to_string());
+                    }
+                    let delimiter = boxed_delimiter.unwrap();
                     let occurence = url_path.find(delimiter);
                     if occurence.is_none() {
                         return Ok(is_not_matching)
@@ -229,7 +236,11 @@ impl UrlPath {
                 let static_pattern = part.static_pattern.clone().unwrap();
                 // println!("static pattern {:?}", static_pattern);
                 // println!("path {:?}", path);
-                path = path.strip_prefix(static_pattern.as_str()).unwrap().to_string();
+                let boxed_path = path.strip_prefix(static_pattern.as_str());
+                if boxed_path.is_none() {
+                    return Err("path does not match the pattern".to_string());
+                }
+                path = boxed_path.unwrap().to_string();
             } else {
                 // continue, unless the part is last,
                 // if so read to the end of path and add to map
